@@ -182,6 +182,20 @@ def step (st : St) (op res : String) : St × List String :=
     let obs : F4Res := if res == "ok" then .ok else .doubleFree
     let mon := Mon4.step s e out (.free x obs)
     (.v4mon s e mon.1, "br:free4.monitor-only" :: verdictMsgs mon.2 s!"free {ip} -> {res}")
+  | "arace" :: _, .none => (st, ["br:skipped.no-allocator"])
+  | "arace" :: _, _ =>
+    -- rounds of callers naming the same block at once (harness/alloc.go): the blocks handed out in a
+    -- round are pairwise different in every one-at-a-time order (C04 for every schedule), and all of
+    -- them are freed again, so the state is as before
+    if res == "ok" then (st, ["br:arace"])
+    else if res.startsWith "dup" then
+      (st, ["br:arace", "DIVERGE dom model=pairwise-different",
+            s!"FAIL C04 concurrent callers were handed the same block without a Free in between: {res}",
+            s!"FAIL C16 concurrent callers were handed the same block (no one-at-a-time order does that): {res}",
+            s!"FAIL C07 concurrent callers were handed the same block: {res}"])
+    else if res.startsWith "HANG" then
+      (st, ["br:arace", "DIVERGE dom model=returns", "FAIL C01 concurrent Allocate calls never returned", "FAIL C16 concurrent Allocate calls never returned"])
+    else (st, ["br:arace", s!"DIVERGE dom model=ok", s!"FAIL C06 a block handed out a moment ago could not be freed: {res}", s!"FAIL C16 a block handed out a moment ago could not be freed: {res}"])
   | _, .none => (st, ["br:skipped.no-allocator"])
   | _, _ => (st, ["DIVERGE drift unparsed-op"])
 
